@@ -68,6 +68,7 @@ def cases(draw):
         "chunk": draw(st.sampled_from([None, 1, 1, 2, 3, 4])),
         "seed": draw(st.integers(0, 5000)),
         "repeat": draw(st.sampled_from([0, 0, 0, 1, 2])),  # how many items of the request are named twice
+        "edit": draw(st.one_of(st.none(), st.tuples(st.integers(0, 20), st.sampled_from([(0, 0), (0, 1), (0, 2), (-5, 5), (0, 100), (1, 10)])))),
     }
 
 
@@ -90,14 +91,15 @@ def deletion_rows(df):
     return {"|".join(sorted(ids)): (float(g), s) for ids, g, s in zip(df["ids"], df["growth"], df["status"])}
 
 
-def check_case(case, ctx):
+def check_case(case, ctx, model=None):
     import cobra.flux_analysis as fa
     from cobra.flux_analysis import deletion, variability
 
-    build.reset_globals()
     spec = case["spec"]
     fn = case["fn"]
-    model = build.build_model(spec, "bulk")
+    if model is None:
+        build.reset_globals()
+        model = build.build_model(spec, "bulk")
     rids = [r["id"] for r in spec["rxns"]]
     gids = [g["id"] for g in spec["genes"]]
     wt, _ = oracles.fba(spec)
@@ -208,7 +210,10 @@ def check_case(case, ctx):
                 got = fa.flux_variability_analysis(model, reaction_list=items, processes=case["processes"], **opts)
             if list(got.index) != items:
                 _v("fva:index", f"index {list(got.index)} but requested {items}")
-            _, exact, _ = oracles.fva(spec, rids, fraction=opts.get("fraction_of_optimum", 1), pfba_factor=opts.get("pfba_factor"))
+            est, exact, _ = oracles.fva(spec, rids, fraction=opts.get("fraction_of_optimum", 1), pfba_factor=opts.get("pfba_factor"))
+            if est != "optimal":  # no exact ranges for this request: the three runs are still compared with each other
+                exact = {rid: (None, None) for rid in rids}
+                classes.append("fva-no-exact-ranges")
             for pos, rid in enumerate(items):
                 alone = fa.flux_variability_analysis(model, reaction_list=[rid], processes=1, **opts)
                 for col, k in (("minimum", 0), ("maximum", 1)):
@@ -303,7 +308,20 @@ def check_case(case, ctx):
     if used_pool:
         classes.append("pool-used")
         classes.append("arrival-reordered" if reordered else "arrival-in-order")
-    return {"nontrivial": used_pool and reordered and multi_task and varied, "classes": classes}
+    out = {"nontrivial": used_pool and reordered and multi_task and varied, "classes": classes}
+    # the same model object is edited (one bound) and asked again, now serially where it was parallel and the other way
+    # round: nothing a call left behind in the process may show up in the next one (since seeded change C14-8)
+    if case.get("edit") is not None and not case.get("_second"):
+        import copy as _copy
+
+        k, (lb, ub) = case["edit"]
+        spec2 = _copy.deepcopy(spec)
+        rx = spec2["rxns"][k % len(spec2["rxns"])]
+        rx["lb"], rx["ub"] = lb, ub
+        model.reactions.get_by_id(rx["id"]).bounds = (rx["lb"], rx["ub"])
+        second = check_case({**case, "spec": spec2, "_second": True, "processes": 1 if case["processes"] > 2 else case["processes"]}, ctx, model=model)
+        out["classes"] = classes + ["~asked-again-after-an-edit"] + [c for c in second["classes"] if c.startswith("wt-")]
+    return out
 
 
 def hyp_phase(ctx):
